@@ -284,6 +284,15 @@ impl NameResolution {
                 let def_id = match item {
                     ast::Item::Fn(func) => {
                         let full_name = full_def_name(package_name, &func.name.0);
+                        if package_name != "Builtin"
+                            && hir::BuiltinId::from_name(&full_name).is_some()
+                        {
+                            // The typer and the Go backend recognise these builtins by name.
+                            self.error(format!(
+                                "function name {} is reserved for a builtin",
+                                full_name
+                            ));
+                        }
                         let path = full_def_path(package_name, &func.name.0);
                         let id = hir_table.alloc_def_with_path(
                             path,
